@@ -134,56 +134,57 @@ func TestC10(t *testing.T) {
 		listings := 0
 		for _, m := range live {
 			for _, prefix := range cs.Prefixes {
-				var got []*protocol.KeyComposite
-				if err := retryKV(func() (e error) { got, e = m.Node.ListKeys(ctx, []byte(prefix)); return }); err != nil {
-					rec.Fail(t, "listing-fails-on-stable-ring", map[string]any{"case": cs, "start": m.ID, "prefix": prefix, "err": err.Error()}, "ListKeys(%q) from %d on a stable ring: %v", prefix, m.ID, err)
-				}
-				listings++
-				gotM := map[kk]int{}
-				for _, kc := range got {
-					gotM[kk{string(kc.GetKey()), kc.GetType().String()}]++
-				}
 				wantM := map[kk]int{}
 				for k, n := range model {
 					if strings.HasPrefix(k.key, prefix) {
 						wantM[k] = n
 					}
 				}
-				g, w := render(gotM), render(wantM)
-				if strings.Join(g, "|") != strings.Join(w, "|") {
-					// a stale in-flight maintenance write can transiently un-converge a settled ring
-					// (see C01): the listing counts only if it is wrong again on the re-settled ring
-					persistent := true
-					for try := 0; try < 3 && persistent; try++ {
-						if _, c3 := r.settle(20, true, nil); c3.Problem != "" {
-							persistent = false
-							break
-						}
-						var again []*protocol.KeyComposite
-						if err := retryKV(func() (e error) { again, e = m.Node.ListKeys(ctx, []byte(prefix)); return }); err != nil {
-							continue
-						}
-						am := map[kk]int{}
-						for _, kc := range again {
-							am[kk{string(kc.GetKey()), kc.GetType().String()}]++
-						}
-						if strings.Join(render(am), "|") == strings.Join(w, "|") {
-							persistent = false
-						}
+				w := render(wantM)
+				listOnce := func() ([]string, error) {
+					var got []*protocol.KeyComposite
+					if err := retryKV(func() (e error) { got, e = m.Node.ListKeys(ctx, []byte(prefix)); return }); err != nil {
+						return nil, err
 					}
-					if !persistent {
-						rec.Inconclusive("transient-listing-mismatch-not-reproducible-on-settled-ring")
-						return
+					gm := map[kk]int{}
+					for _, kc := range got {
+						gm[kk{string(kc.GetKey()), kc.GetType().String()}]++
 					}
-					sig := "listing-differs-from-stored-keys"
-					switch {
-					case len(g) > len(w):
-						sig = "listing-has-extra-or-duplicate-entries"
-					case len(g) < len(w):
-						sig = "listing-misses-stored-keys"
-					}
-					rec.Fail(t, sig, map[string]any{"case": cs, "start": m.ID, "prefix": prefix, "got": g, "want": w}, "ListKeys(%q) from node %d = %v, want %v", prefix, m.ID, g, w)
+					return render(gm), nil
 				}
+				g, err := listOnce()
+				listings++
+				if err == nil && strings.Join(g, "|") == strings.Join(w, "|") {
+					continue
+				}
+				// a stale in-flight maintenance write can transiently un-converge a settled ring
+				// (see C01): a wrong listing or an error counts only if it shows again on the
+				// re-settled ring
+				persistent := true
+				for try := 0; try < 3 && persistent; try++ {
+					if _, c3 := r.settle(20, true, nil); c3.Problem != "" {
+						persistent = false
+						break
+					}
+					if g2, e2 := listOnce(); e2 == nil && strings.Join(g2, "|") == strings.Join(w, "|") {
+						persistent = false
+					}
+				}
+				if !persistent {
+					rec.Inconclusive("transient-listing-failure-not-reproducible-on-settled-ring")
+					return
+				}
+				if err != nil {
+					rec.Fail(t, "listing-fails-on-stable-ring", map[string]any{"case": cs, "start": m.ID, "prefix": prefix, "err": err.Error()}, "ListKeys(%q) from %d on a stable ring: %v", prefix, m.ID, err)
+				}
+				sig := "listing-differs-from-stored-keys"
+				switch {
+				case len(g) > len(w):
+					sig = "listing-has-extra-or-duplicate-entries"
+				case len(g) < len(w):
+					sig = "listing-misses-stored-keys"
+				}
+				rec.Fail(t, sig, map[string]any{"case": cs, "start": m.ID, "prefix": prefix, "got": g, "want": w}, "ListKeys(%q) from node %d = %v, want %v", prefix, m.ID, g, w)
 			}
 		}
 		rec.Add("listings", int64(listings))
